@@ -354,6 +354,8 @@ def run(chk: Check, eng: Engine) -> None:
     if rows < 25:
         raise AnalysisError(f"only {rows} operator-table rows recovered from SearchProcessor")
     literal_decoding(chk, eng, "R08-d")
+    chk.rule("R08-g", "a handler that decides between 'the element' and 'a tuple' for a comma sequence with optional trailing comma consults the comma", floor=3)
+    trailing_separator_rule(chk, eng, "R08-g")
     chk.rule("R08-f", "an infix rule of the constraint language whose operands can absorb its own operators is handled chain-aware", floor=1)
     operand_absorption(chk, eng, "R08-f")
     chk.rule("R08-e", "a constant-index context accessor ctx.X(k) is used only where slot k of X is fixed by the rule (no earlier optional occurrence)", floor=10)
@@ -634,6 +636,65 @@ def operand_absorption(chk: Check, eng: Engine, rule: str) -> None:
         raise AnalysisError("no infix rule found in the constraint part of the grammar")
 
 
+def trailing_separator_rule(chk: Check, eng: Engine, rule: str) -> None:
+    """R08-g.  In Python a trailing comma is meaning, not layout: `1,` is a tuple, `a, = x` unpacks, `x[1,]` subscripts with a tuple.  The grammar
+    writes these sequences as `X (',' X)* ','?`; a handler that decides between "the element" and "a tuple of the elements" from the *number*
+    of elements alone reads `1,` as `1`.  Every such decision must also consult the comma."""
+    from .. import g4
+    gp = g4.load(eng, "Parser")
+    seq_rules = []
+    for name, r in gp.rules.items():
+        if r.is_lexer:
+            continue
+        for alt in r.alts:
+            if len(alt) >= 2 and alt[-1].kind in ("lit", "token") and alt[-1].quant == "?" and alt[-1].value in ("','", "COMMA"):
+                seq_rules.append(name)
+                break
+    if len(seq_rules) < 4:
+        raise AnalysisError(f"only {len(seq_rules)} comma-sequence rules with an optional trailing comma found in the grammar")
+    procs = [eng.cls("fandango.language.parse.convert", c) for c in ("SearchProcessor", "PythonProcessor")]
+    n = 0
+    for rname in sorted(seq_rules):
+        meth = rule_to_method(rname)
+        accessor = rname + ("_" if rname in ("tuple", "list", "set", "dict", "lambda", "global", "del", "pass") else "")
+        for pc in procs:
+            cands = []
+            if meth in pc.methods:
+                cands.append((pc.methods[meth], "ctx"))
+            # helpers that take the rule's context as a parameter and visit it themselves
+            for m in pc.methods.values():
+                for c in walk_local(m.node):
+                    if isinstance(c, ast.Call) and isinstance(c.func, ast.Attribute) and c.func.attr == meth and self_attr(c.func) and c.args and isinstance(c.args[0], ast.Name) \
+                            and c.args[0].id in m.params() and m.name != meth:
+                        cands.append((m, c.args[0].id))
+            for m, ctxname in cands:
+                builds_tuple = any(isinstance(c, ast.Call) and norm(c.func) == "ast.Tuple" for c in walk_local(m.node))
+                if not builds_tuple:
+                    continue
+                for i_ in walk_local(m.node):
+                    if not isinstance(i_, ast.If):
+                        continue
+                    conj = i_.test.values if isinstance(i_.test, ast.BoolOp) and isinstance(i_.test.op, ast.And) else [i_.test]
+                    count_tests = [c for c in conj if isinstance(c, ast.Compare) and isinstance(c.left, ast.Call) and call_name(c.left) == "len" and len(c.ops) == 1
+                                   and isinstance(c.ops[0], ast.Eq) and isinstance(c.comparators[0], ast.Constant) and c.comparators[0].value == 1]
+                    if not count_tests:
+                        continue
+                    # does the branch decide between element and tuple?
+                    body_txt = norm(ast.Module(body=i_.body + i_.orelse, type_ignores=[]))
+                    if "ast.Tuple" not in body_txt:
+                        continue
+                    n += 1
+                    consults = any("COMMA" in norm(c) for c in conj)
+                    if consults:
+                        chk.ok(rule, m.fq, i_.lineno, f"`{rname}`: one element is taken as the element only if no comma follows (`{short(i_.test, 60)}`)")
+                    else:
+                        chk.bad(rule, eng.relfile(m), i_.lineno, m.fq, f"`{rname}` (`X (',' X)* ','?`): `{short(i_.test, 50)}` takes a single element as the element itself without looking at the trailing comma",
+                                "`t = 1,` binds 1 instead of (1,), `a, = seq` binds the whole sequence, `x[1,]` subscripts with 1: embedded Python silently changes its meaning",
+                                keyparts=f"trailing-comma|{rname}|{m.name}")
+    if n < 3:
+        raise AnalysisError(f"only {n} element-or-tuple decisions found for comma sequences")
+
+
 def rule_c(chk: Check, eng: Engine, sp: ClassInfo) -> None:
     from ..cfg import CFG
 
@@ -703,6 +764,8 @@ from ..mutants import M  # noqa: E402
 _CV = "src/fandango/language/parse/convert.py"
 _G4 = "language/FandangoParser.g4"
 MUTANTS = [
+    M("one-element-tuple-collapsed", "src/fandango/language/parse/convert.py", "        if len(expressions) == 1 and not ctx.COMMA():\n", "        if len(expressions) == 1:\n", "R08-g"),
+    M("one-element-subscript-tuple-collapsed", "src/fandango/language/parse/convert.py", "        if len(slice_trees) == 1 and not slices.COMMA():\n", "        if len(slice_trees) == 1:\n", "R08-g"),
     M("chained-comparison-not-rejoined", "src/fandango/language/parse/convert.py", "        left_chain = self._is_comparison_chain(ctx.expr(0))\n        right_chain = self._is_comparison_chain(ctx.expr(1))\n", "        left_chain = False\n        right_chain = False\n", "R08-f"),
     M("fold-negative-literals", _CV, "        elif ctx.MINUS():\n            return self._visit_unary_op(ctx, ast.USub())\n", "        elif ctx.MINUS():\n            tree, searches, search_map = self._visit_unary_op(ctx, ast.USub())\n            if isinstance(tree.operand, ast.Constant):\n                return ast.Constant(value=-tree.operand.value), searches, search_map\n            return tree, searches, search_map\n", "R08-b"),
     M("literal-fast-path", "src/fandango/language/symbols/terminal.py", "        return cast(\n            str | bytes | int, eval(symbol)\n        )", "        if symbol[0] in \"'\\\"\" and \"\\\\\" not in symbol:\n            return symbol[1:-1]\n        return cast(\n            str | bytes | int, eval(symbol)\n        )", "R08-d"),
